@@ -1006,7 +1006,16 @@ func isEmptySliceLit(v ssa.Value) bool {
 		return false
 	}
 	arr, ok := p.Elem().Underlying().(*types.Array)
-	return ok && arr.Len() == 0
+	if ok && arr.Len() == 0 {
+		return true
+	}
+	// make(T, 0, <constant>): a fresh array sliced [:0]
+	if ok && sl.High != nil && a.Comment == "makeslice" {
+		if k, isK := constInt(sl.High); isK && k == 0 {
+			return true
+		}
+	}
+	return false
 }
 
 // appendedElems: for append(s, e1, e2...) built from a varargs array, the element values.
